@@ -13,7 +13,9 @@ from dsim.prng import Rng
 NAME_STEMS = ["a", "b", "acc", "total", "x1", "state", "h", "hidden", "tmp", "value_long_name", "k", "v", "q",
               "carry", "s0", "s1", "left", "right", "m", "n2", "zz", "prev", "cur", "delta", "w"]
 BINOPS = ["op.Add({0}, {1})", "op.Mul({0}, {1})", "op.Sub({0}, {1})", "{0} + {1}", "{0} * {1}", "op.Max({0}, {1})"]
-UNOPS = ["op.Neg({0})", "op.Abs({0})", "op.Relu({0})", "op.Identity({0})", "{0} * K0", "op.Add({0}, KARR)", "{0} + 1.0"]
+UNOPS = ["op.Neg({0})", "op.Abs({0})", "op.Relu({0})", "op.Identity({0})", "{0} * K0", "op.Add({0}, KARR)", "{0} + 1.0",
+         # literals that compare (and hash) equal to other literals but are other values bit for bit, or other types
+         "{0} + 0.0", "{0} * -0.0", "op.Add({0}, -0.0)", "{0} * 1", "op.Sub({0}, 0.0)", "{0} + K0"]
 
 
 # operators introduced after opset 15, with the version that introduced them
@@ -57,11 +59,11 @@ def gen_script(rng: Rng, tag: str, consts: Rng | None = None, const_exprs: bool 
         f"from onnxscript.onnx_opset import opset{ver} as op",
         "from onnxscript.onnx_types import FLOAT, BOOL, INT64",
         "",
-        f"K0 = {crng.choice(['2.5', '0.5', '3.0', '-1.25', '1.75', '-0.5'])}",
+        f"K0 = {crng.choice(['2.5', '0.5', '3.0', '-1.25', '0.0', '-0.0', '0.0', '-0.0', '1', '1.0'])}",
         f"KARR = np.array([{crng.choice(['1.0', '0.25', '4.0'])}], dtype=np.float32)",
         f"NITER = {crng.randint(1, 4)}",
         f"TCONST = make_tensor('tc', TensorProto.FLOAT, [2], [{crng.choice(['1.0, 2.0', '0.5, -0.5'])}])",
-        f"FLOATS = [{crng.choice(['1.0, 3.0', '2.0, 5.0', '0.25, 0.5'])}]",
+        f"FLOATS = [{crng.choice(['1.0, 3.0', '2.0, 5.0', '0.0, 1.0', '-0.0, 1.0', '0.0, -0.0', '-0.0, 0.0'])}]",
         f"WIDTH = {crng.choice([2, 3, 4, 6])}",
         "",
     ]
